@@ -209,6 +209,136 @@ theorem git_first_line_consumed (par : Parser) (pt : Patch) (strip : Int) (l : L
   | .ok (_, p, info, par') => p.format == .git && info.linesTillFirstHunk == 2 && par'.s.rest.length == 1
   | _ => false
 
+/-! ### the `Prereq: ` line -/
+
+/-- a word as it stands on a `Prereq: ` line: no TAB, no blank, not quoted (may be empty) -/
+def plainWord (w : Bytes) : Prop := TAB ∉ w ∧ SP ∉ w ∧ w.head? ≠ some DQUOTE
+
+/-- NEW (`parse_file_line(0, …)` for the `Prereq: ` line): **the prerequisite is not stripped like a path**.  In every state
+    of the scan — no earlier rule of `headerStep` applies to a line that starts with `P` — and for every `-p`, a line
+    `Prereq: w` stores the word `w` itself.  Before the change it stored `stripPath w strip`: with `-p1` the word `1.0/beta`
+    became `beta`, and a word without a slash became empty (nothing was looked for). -/
+theorem prereq_not_stripped (st : HState) (w : Bytes) (strip : Int) (hw : plainWord w) :
+    headerStep st (str "Prereq: " ++ w) strip =
+      .ok ({ st with lines := st.lines + 1, thisLooks := .unknown, patch := { st.patch with prerequisite := w } }, true) := by
+  rw [Header.headerStep_prereq]
+  by_cases hne : w = []
+  · subst hne; rfl
+  · rw [Names.file_line_word w 0 hne hw.2.2 hw.1 hw.2.1, Names.stripPath_zero]
+    simp [Except.map]
+
+/-- … while the name on an `Index: ` line is stripped, as before -/
+theorem index_is_stripped (st : HState) (w : Bytes) (strip : Int) (hw : plainWord w) (hne : w ≠ []) :
+    headerStep st (str "Index: " ++ w) strip =
+      .ok ({ st with lines := st.lines + 1, thisLooks := .unknown,
+                     patch := { st.patch with indexPath := if w = devNull then w else stripPath w strip } }, true) := by
+  rw [Header.headerStep_index, Names.file_line_word w strip hne hw.2.2 hw.1 hw.2.1]
+  rfl
+
+-- what stripping did to the word (kernel-checked): with -p1 `1.0/beta` lost its first component, `1.0` everything
+example : stripPath [49, 46, 48, 47, 98, 101, 116, 97] 1 = [98, 101, 116, 97] := by simp [stripPath, stripLoop, SLASH]
+example : stripPath [49, 46, 48] 1 = [] := by simp [stripPath, stripLoop, SLASH]
+#guard match parseHeader { s := { rest := [⟨str "Prereq: 1.0/beta", .lf⟩, ⟨str "Index: a/f", .lf⟩, ⟨str "--- a/f	1", .lf⟩,
+                                           ⟨str "+++ b/f	2", .lf⟩, ⟨str "@@ -1 +1 @@", .lf⟩, ⟨str "-x", .lf⟩, ⟨str "+y", .lf⟩] } } {} 1 with
+  | .ok (_, p, _, _) => p.prerequisite == str "1.0/beta" && p.indexPath == str "f" && p.oldPath == str "f"
+  | _ => false
+
+/-! ### git sections: what the ranges of the first hunk say -/
+
+/-- NEW (the Delete / Add inference is restricted in git sections): a git patch says so if it removes or adds a file
+    (`deleted file mode`, `new file mode`, or `/dev/null` as a name).  If the header scan returns a git patch and neither
+    name is `/dev/null`, the operation is the one the extended header lines gave (`st.patch.operation` of the final scan
+    state; `change` if there was no such line): a first hunk `@@ -1 +0,0 @@` empties the file, it does not remove it.
+    Before the change `new.start = 0` alone made it a `delete`.  `Header.parseHeader_operation` gives the operation in
+    every case. -/
+theorem git_range_alone_infers_nothing (par : Parser) (pt : Patch) (strip : Int) (body : Bool) (p : Patch) (info : HeaderInfo)
+    (par' : Parser) (h : parseHeader par pt strip = .ok (body, p, info, par')) (hg : p.format = .git)
+    (hold : p.oldPath ≠ devNull) (hnew : p.newPath ≠ devNull) :
+    ∃ st, headerLoop strip (par.s.rest.length + 2) { par := par, patch := pt } = .ok st ∧
+      p.operation = st.patch.operation :=
+  Header.parseHeader_git_operation par pt strip body p info par' h hg hold hnew
+
+/-- a name as it stands on a `--- ` / `+++ ` line of a git diff (nothing after it): not empty, no TAB, no blank, not quoted -/
+def wordName (n : Bytes) : Prop := n ≠ [] ∧ TAB ∉ n ∧ SP ∉ n ∧ n.head? ≠ some DQUOTE
+
+/-- what a git section whose extended header lines say nothing does to the file: it is removed (added) only if the first
+    range says "no lines, at line 0" AND the name on that side is `/dev/null` -/
+def gitInferredOp (h : Hunk) (oldPath newPath : Bytes) : Operation :=
+  if h.new.start = 0 ∧ newPath = devNull then .delete
+  else if h.old.start = 0 ∧ oldPath = devNull then .add else .change
+
+/-- NEW, the git counterpart of `unified_header_roundtrip`: **the header of a git section is read back** —
+    `diff --git a/X b/X` (X any bytes), `--- old`, `+++ new`, the range line and a first body line give a git patch with the
+    two names (stripped by `-p`, `/dev/null` kept), first hunk on line 4, the stream left at the range line with clean
+    flags — and the operation is `gitInferredOp`, not `inferredOp`. -/
+theorem git_header_roundtrip (x old new : Bytes) (h : Hunk) (first : Line) (more : List Line) (strip : Int) (lineNo : Nat)
+    (hold : wordName old) (hnew : wordName new)
+    (hr : 0 ≤ h.old.start ∧ h.old.start ≤ i64Max / 4 ∧ 0 ≤ h.old.count ∧ h.old.count ≤ i64Max / 4 ∧
+          0 ≤ h.new.start ∧ h.new.start ≤ i64Max / 4 ∧ 0 ≤ h.new.count ∧ h.new.count ≤ i64Max / 4)
+    (hfirst : startsWith first.content " " ∨ startsWith first.content "+" ∨ startsWith first.content "-")
+    (hterm : first.newline ≠ .none) :
+    parseHeader { s := { rest := ⟨str "diff --git " ++ (str "a/" ++ x ++ str " b/" ++ x), .lf⟩ :: ⟨str "--- " ++ old, .lf⟩ ::
+                                 ⟨str "+++ " ++ new, .lf⟩ :: ⟨rangeLineText h, .lf⟩ :: first :: more }, lineNo := lineNo } {} strip
+      = .ok (true,
+             { format := .git,
+               operation := gitInferredOp h (if old = devNull then old else stripPath old strip)
+                                            (if new = devNull then new else stripPath new strip),
+               oldPath := if old = devNull then old else stripPath old strip,
+               newPath := if new = devNull then new else stripPath new strip },
+             { linesTillFirstHunk := 4, format := .git },
+             { s := { rest := ⟨rangeLineText h, .lf⟩ :: first :: more, eof := false, bad := false }, lineNo := lineNo + 3 }) := by
+  have hb : Header.bodyStart first.content := by
+    rcases hfirst with h1 | h1 | h1
+    · exact Or.inr (Or.inr h1)
+    · exact Or.inl h1
+    · exact Or.inr (Or.inl h1)
+  exact Header.parseHeader_git_section strip _ {} _ _ old new h first more (Names.git_header_same_name x strip)
+    hold hnew hr hb hterm rfl rfl rfl rfl
+
+/-- the two cases of the fix.  `@@ -1 +0,0 @@` under `+++ b/x` empties the file: the operation is `change` (before the
+    change: `delete`, and the file was unlinked although the patch did not say so); under `+++ /dev/null` it removes it. -/
+theorem git_empty_range_needs_dev_null (x : Bytes) (old new : Bytes) (first : Line) (more : List Line) (lineNo : Nat)
+    (hold : wordName old) (hnew : wordName new)
+    (hfirst : startsWith first.content " " ∨ startsWith first.content "+" ∨ startsWith first.content "-")
+    (hterm : first.newline ≠ .none) :
+    ∃ p info par',
+      parseHeader { s := { rest := ⟨str "diff --git " ++ (str "a/" ++ x ++ str " b/" ++ x), .lf⟩ :: ⟨str "--- " ++ old, .lf⟩ ::
+                                   ⟨str "+++ " ++ new, .lf⟩ :: ⟨rangeLineText ⟨⟨1, 1⟩, ⟨0, 0⟩, []⟩, .lf⟩ :: first :: more },
+                    lineNo := lineNo } {} 0 = .ok (true, p, info, par') ∧
+      p.format = .git ∧ p.oldPath = old ∧ p.newPath = new ∧
+      (p.operation = if new = devNull then .delete else .change) := by
+  refine ⟨_, _, _, git_header_roundtrip x old new ⟨⟨1, 1⟩, ⟨0, 0⟩, []⟩ first more 0 lineNo hold hnew (by decide) hfirst hterm,
+    rfl, ?_, ?_, ?_⟩
+  · simp only [Names.stripPath_zero, ite_self]
+  · simp only [Names.stripPath_zero, ite_self]
+  · simp only [Names.stripPath_zero, ite_self, gitInferredOp, true_and]
+    split
+    · rfl
+    · rw [if_neg (by simp)]
+
+/-- the operation of a header scan -/
+def opOfHeader (lines : List String) (strip : Int) : Option (Format × Operation) :=
+  match parseHeader { s := { rest := lines.map fun l => ⟨str l, .lf⟩ } } {} strip with
+  | .ok (_, p, _, _) => some (p.format, p.operation)
+  | _ => none
+
+-- the situations of the fix, evaluated.  In a git section a range of no lines …
+#guard opOfHeader ["diff --git a/x b/x", "--- a/x", "+++ b/x", "@@ -1 +0,0 @@", "-gone"] 1 == some (.git, .change)
+#guard opOfHeader ["diff --git a/x b/x", "--- a/x", "+++ b/x", "@@ -0,0 +1 @@", "+new"] 1 == some (.git, .change)
+-- … removes (adds) the file only together with `/dev/null` …
+#guard opOfHeader ["diff --git a/x b/x", "--- a/x", "+++ /dev/null", "@@ -1 +0,0 @@", "-gone"] 1 == some (.git, .delete)
+#guard opOfHeader ["diff --git a/x b/x", "--- /dev/null", "+++ b/x", "@@ -0,0 +1 @@", "+new"] 1 == some (.git, .add)
+-- … or when the extended header says so …
+#guard opOfHeader ["diff --git a/x b/x", "deleted file mode 100644", "--- a/x", "+++ b/x", "@@ -1 +0,0 @@", "-gone"] 1
+  == some (.git, .delete)
+#guard opOfHeader ["diff --git a/x b/x", "new file mode 100644", "--- a/x", "+++ b/x", "@@ -0,0 +1 @@", "+new"] 1
+  == some (.git, .add)
+-- … a `/dev/null` on the other side says nothing …
+#guard opOfHeader ["diff --git a/x b/x", "--- /dev/null", "+++ b/x", "@@ -1 +0,0 @@", "-gone"] 1 == some (.git, .change)
+-- … and outside a git section the ranges alone decide, as before (`unified_header_roundtrip`: `inferredOp`)
+#guard opOfHeader ["--- a/x", "+++ b/x", "@@ -1 +0,0 @@", "-gone"] 1 == some (.unified, .delete)
+#guard opOfHeader ["--- a/x", "+++ b/x", "@@ -0,0 +1 @@", "+new"] 1 == some (.unified, .add)
+
 end PatchModel.C11
 
 #print axioms PatchModel.C11.unified_header_roundtrip
@@ -216,3 +346,8 @@ end PatchModel.C11
 #print axioms PatchModel.C11.unified_header_after_filler_forced
 #print axioms PatchModel.C11.first_hunk_line_like_header
 #print axioms PatchModel.C11.git_first_line_consumed
+#print axioms PatchModel.C11.prereq_not_stripped
+#print axioms PatchModel.C11.index_is_stripped
+#print axioms PatchModel.C11.git_range_alone_infers_nothing
+#print axioms PatchModel.C11.git_header_roundtrip
+#print axioms PatchModel.C11.git_empty_range_needs_dev_null
